@@ -1,11 +1,14 @@
 import BeffVerif.Sexp
 import BeffVerif.Driver.BddOps
+import BeffVerif.Driver.ShaOps
 /-! Line-protocol driver: one request S-expression per line on stdin, one reply per line on stdout. -/
 open BeffVerif
 
 def handle (req : Sexp) : Sexp :=
   match req with
   | .list [.atom "bdd-ops", .list atoms, .list script] => Driver.bddOps atoms script
+  | .list (.atom "sha-bytes" :: chunks) => Driver.shaBytes chunks
+  | .list (.atom "sha-toks" :: toks) => Driver.shaToks toks
   | _ => .list [.atom "bad-op"]
 
 partial def loop (h : IO.FS.Stream) (out : IO.FS.Stream) : IO Unit := do
